@@ -1,5 +1,9 @@
 //! C14: REMEMBER / SHOW end to end on the real engine (1-3 shards).
 //!
+//! (Findings C14-mark-from-last-frame and C14-remember-in-flush-window are repaired in /repo —
+//! commits 60e3c76, f1fe52c; their witnesses stay as regression cases that must pass, a recurrence is
+//! reported with class `-`.)
+//!
 //! A case is a history of STORE (wall-clock second and id-clock millisecond scripted through the
 //! `store_now` / `id_clock` hooks, contexts routed to chosen shards), FLUSH, compaction rounds,
 //! clean restarts, backdating of segment files, `REMEMBER QUERY q AS m`, `SHOW m` followed by the
@@ -117,8 +121,9 @@ enum Step {
     Restart,
     Backdate,
     Remember { name: usize, spec: Spec },
-    /// STOREs on `ctx` until its shard's memtable rotates, the flush parked between "files written"
-    /// and "passive buffer released"; REMEMBER in that window (it sends no barrier); flush released
+    /// STOREs on `ctx` until its shard's memtable rotates, then REMEMBER at once, without a harness
+    /// barrier: the automatic flush is somewhere in its window and REMEMBER's own AwaitFlush barrier
+    /// (commit f1fe52c) is what keeps the initial run from reading rows twice
     RememberInWindow { name: usize, spec: Spec, ctx: usize, x: u64, ts: u64, ms: u64 },
     /// SHOW (+ QUERY); `twice`: SHOW again; `barrier`: the harness waits for flushes itself first
     Show { name: usize, twice: bool, barrier: bool },
@@ -139,8 +144,6 @@ struct Mat {
     stored_above_mark: BTreeSet<u64>,
     /// key -> (mark when the event was applied, number of frames then); only events applied after REMEMBER
     late: BTreeMap<u64, (Option<(u64, u64)>, usize)>,
-    /// keys that sat in a passive buffer with readable segment files when REMEMBER ran
-    window_keys: BTreeSet<u64>,
 }
 
 struct World {
@@ -357,12 +360,11 @@ impl World {
             }
             Step::Remember { name, spec } => {
                 self.await_flush();
-                self.remember(*name, spec, &BTreeSet::new());
+                self.remember_nowait(*name, spec);
             }
             Step::RememberInWindow { name, spec, ctx, x, ts, ms } => {
                 self.await_flush();
                 let (cname, shard) = self.ctxs[*ctx].clone();
-                self.s.ctl(json!({"ctl":"arm_park","point":"flush.written"}));
                 let mut n = 0u64;
                 loop {
                     let key = self.next_key;
@@ -379,21 +381,13 @@ impl World {
                     self.toks.push(Tok::E(key));
                     self.mem_keys[shard].push(key);
                     if self.mem_keys[shard].len() >= self.cfg.capacity() {
-                        break;
+                        break; // this STORE rotates the memtable: no barrier, REMEMBER follows at once
                     }
-                    self.await_flush(); // nothing in flight yet: only the mailbox barrier
+                    self.await_flush();
                 }
-                let v = self.s.ctl(json!({"ctl":"wait_parked","point":"flush.written","ms":5000}));
-                assert!(v.map(|v| v["parked"].as_u64().unwrap_or(0) > 0).unwrap_or(false), "flush did not park");
-                let window: BTreeSet<u64> = self.mem_keys[shard].iter().copied().collect();
-                self.mem_keys[shard].clear();
-                self.toks.push(Tok::Raw(format!("FB {shard}")));
-                self.tally("remember_in_flush_window");
-                self.remember_nowait(*name, spec, &window);
-                self.s.ctl(json!({"ctl":"release_all"}));
-                self.await_flush();
-                self.toks.push(Tok::Raw("FE".into()));
-                self.note_marks(*name);
+                self.flush_tok(shard);
+                self.tally("remember_without_harness_barrier");
+                self.remember_nowait(*name, spec);
             }
             Step::Show { name, twice, barrier } => {
                 if *barrier {
@@ -414,21 +408,7 @@ impl World {
                     if let (Some(a), Some(b)) = (&first, &second) {
                         self.checks += 1;
                         if a != b {
-                            // explained only if the second SHOW merely repeats rows that were stored
-                            // above the mark the first one left (and loses none)
-                            let mut cnt: BTreeMap<u64, i64> = BTreeMap::new();
-                            for k in b {
-                                *cnt.entry(*k).or_insert(0) += 1;
-                            }
-                            for k in a {
-                                *cnt.entry(*k).or_insert(0) -= 1;
-                            }
-                            let explained = self
-                                .mats
-                                .get(name)
-                                .map(|m| cnt.iter().all(|(k, c)| *c == 0 || (*c > 0 && m.stored_above_mark.contains(k))))
-                                .unwrap_or(false);
-                            let class = if explained { "mark-below-stored-row" } else { "-" };
+                            let class = "-";
                             self.fails.push((class.into(), format!("SHOW m{name} repeated without new data: {} then {}", keys_str(a), keys_str(b))));
                         } else {
                             self.tally("idempotent_ok");
@@ -442,12 +422,8 @@ impl World {
         }
     }
 
-    fn remember(&mut self, name: usize, spec: &Spec, window: &BTreeSet<u64>) {
-        self.remember_nowait(name, spec, window)
-    }
-
-    /// REMEMBER; `window`: keys that are readable twice right now (flush window)
-    fn remember_nowait(&mut self, name: usize, spec: &Spec, window: &BTreeSet<u64>) {
+    /// REMEMBER (no harness barrier here; callers decide)
+    fn remember_nowait(&mut self, name: usize, spec: &Spec) {
                 let mname = format!("m{name}");
                 let before = self.mats.get(&name).map(|m| (m.frames.clone(), m.mark));
                 let r = self.s.cmd(&format!("REMEMBER {} AS {mname}", spec.text(&self.ctxs))).expect("child died");
@@ -465,20 +441,10 @@ impl World {
                     let want: Vec<u64> = self.evs.values().filter(|e| spec.matches(e)).map(|e| e.key).collect();
                     let got: Vec<u64> = frames.iter().flatten().copied().collect();
                     if keys_str(&want) != keys_str(&got) {
-                        // explained only if REMEMBER ran in a flush window and the surplus is one extra
-                        // copy of rows that were readable twice
-                        let mut cnt: BTreeMap<u64, i64> = BTreeMap::new();
-                        for k in &got {
-                            *cnt.entry(*k).or_insert(0) += 1;
-                        }
-                        for k in &want {
-                            *cnt.entry(*k).or_insert(0) -= 1;
-                        }
-                        let explained = cnt.iter().all(|(k, c)| *c == 0 || (*c == 1 && window.contains(k)));
-                        let class = if explained { "remember-in-flush-window" } else { "-" };
-                        self.fails.push((class.into(), format!("REMEMBER {mname} stored {} but the selection is {}", keys_str(&got), keys_str(&want))));
+                        // (a surplus copy of rows was finding C14-remember-in-flush-window, fixed by f1fe52c)
+                        self.fails.push(("-".into(), format!("REMEMBER {mname} stored {} but the selection is {}", keys_str(&got), keys_str(&want))));
                     }
-                    self.mats.insert(name, Mat { spec: spec.clone(), frames, mark, stored_above_mark: BTreeSet::new(), late: BTreeMap::new(), window_keys: window.clone() });
+                    self.mats.insert(name, Mat { spec: spec.clone(), frames, mark, stored_above_mark: BTreeSet::new(), late: BTreeMap::new() });
                 } else if r.message.contains("already exists") {
                     line = "rem:dup".to_string();
                     self.checks += 1;
@@ -498,9 +464,7 @@ impl World {
                 }
                 self.toks.push(Tok::Raw(format!("REM {name} {} {} {frs}", spec.toks(), 1)));
                 self.obs.push(line);
-                if window.is_empty() {
-                    self.note_marks(name);
-                }
+                self.note_marks(name);
     }
 
     /// after REMEMBER / SHOW: which stored rows are above the mark that was left?
@@ -520,7 +484,10 @@ impl World {
             }
         }
         if !above.is_empty() {
+            // was finding C14-mark-from-last-frame (fixed by 60e3c76): a recurrence is a violation
+            let mk = mark_str(m.mark);
             self.tally("mark_left_below_stored_row");
+            self.fails.push(("-".into(), format!("m{name}: mark {mk} left below stored rows {above:?}")));
         }
         let m = self.mats.get_mut(&name).unwrap();
         m.stored_above_mark.extend(above);
@@ -605,14 +572,9 @@ impl World {
         let m = &self.mats[&name];
         let mut classes: BTreeSet<String> = BTreeSet::new();
         for k in &extra {
-            // shown more often than applied: explained iff the row was stored while above a mark
-            classes.insert(if m.window_keys.contains(k) {
-                "remember-in-flush-window".into()
-            } else if m.stored_above_mark.contains(k) {
-                "mark-below-stored-row".into()
-            } else {
-                "-".into()
-            });
+            // shown more often than applied: no open finding explains that any more
+            let _ = k;
+            classes.insert("-".into());
         }
         for k in &missing {
             // never shown: explained iff it was applied after a mark it is not above
@@ -912,8 +874,9 @@ fn witnesses() -> Vec<(&'static str, SysCfg, Vec<Step>)> {
                 Step::Show { name: 0, twice: true, barrier: true },
             ],
         ),
-        // C14_show_eq_query_fails_last_frame: ONE shard, monotone clocks; two events flushed, one
-        // in the memtable; the memtable batch arrives first, the segment batch last
+        // regression case of the repaired finding C14-mark-from-last-frame (Lean:
+        // C14_last_frame_regression): ONE shard, monotone clocks; two events flushed, one in the
+        // memtable; the memtable batch arrives first, the segment batch last. Must hold.
         (
             "last-frame-one-shard",
             one.clone(),
@@ -962,7 +925,7 @@ fn witnesses() -> Vec<(&'static str, SysCfg, Vec<Step>)> {
                 Step::Show { name: 0, twice: true, barrier: true },
             ],
         ),
-        // REMEMBER with data on two shards, then SHOW three times: the mark can move backwards
+        // regression case (same finding): REMEMBER with data on two shards in either arrival order
         (
             "two-shards-remember",
             big.clone(),
@@ -973,9 +936,10 @@ fn witnesses() -> Vec<(&'static str, SysCfg, Vec<Step>)> {
                 Step::Show { name: 0, twice: true, barrier: true },
             ],
         ),
-        // REMEMBER while an auto-flush is between "files written" and "passive buffer released"
+        // regression case of the repaired finding C14-remember-in-flush-window (Lean:
+        // C14_remember_waits_for_flush): REMEMBER right behind the STORE that rotates the memtable
         (
-            "remember-in-flush-window",
+            "remember-behind-rotation",
             one.clone(),
             vec![
                 Step::RememberInWindow { name: 0, spec: all.clone(), ctx: 0, x: 1, ts: 3, ms: 10 },
